@@ -24,10 +24,10 @@ def gen_scenarios(prop, tier, seed):
             sc["options"] = {"sample_count": 3, "sample_size": 2}
             scs.append(sc)
             k += 1
-    per_cell = 2 if tier == "quick" else 8
+    per_cell = 3 if tier == "quick" else 16
     threads = (2, 3) if prop == "C08" else (1, 2, 3)
     scs += G.matrix_scenarios(rnd, per_cell=per_cell, threads_choices=threads)
-    n_extra = 200 if tier == "quick" else 2000
+    n_extra = 400 if tier == "quick" else 8000
     for j in range(n_extra):
         sc = G.base(rnd, f"x{j}")
         if prop == "C08":
@@ -42,9 +42,9 @@ def gen_scenarios(prop, tier, seed):
             sc["alloc_script"]["call_tids"] = sorted(rnd.sample(range(sc["threads"]), rnd.randint(1, sc["threads"] - 1)))
         scs.append(sc)
     # panics on a single thread (T = 1), every site
-    scs += G.panic_scenarios(rnd, 80 if tier == "quick" else 600, single_thread_only=True)
+    scs += G.panic_scenarios(rnd, 150 if tier == "quick" else 2500, single_thread_only=True)
     # bounded-exhaustive interleavings of T = 2
-    dfs_n = 5 if tier == "quick" else 16
+    dfs_n = 6 if tier == "quick" else 24
     for j in range(dfs_n):
         sc = G.base(rnd, f"dfs{j}", entry=rnd.choice(["bench_values", "bench_refs", "bench"]),
                     threads=2, action="bench")
@@ -52,7 +52,7 @@ def gen_scenarios(prop, tier, seed):
         sc["input_counters"] = []
         sc["alloc_script"] = {"call": [{"op": "alloc", "size": 8}]} if prop != "C01" else {}
         sc["schedule"] = {"source": "dfs", "bound": 1 if tier == "quick" else 2,
-                          "max_runs": 500 if tier == "quick" else 6000}
+                          "max_runs": 800 if tier == "quick" else 20000}
         scs.append(sc)
     return scs
 
@@ -60,7 +60,7 @@ def gen_scenarios(prop, tier, seed):
 def multi_thread_panic_scenarios(tier, seed):
     rnd = random.Random(seed * 31 + 5)
     scs = []
-    for k in range(60 if tier == "quick" else 500):
+    for k in range(100 if tier == "quick" else 2000):
         sc = G.base(rnd, f"mp{k}", entry=rnd.choice(["bench_values", "bench_refs", "bench"]),
                     threads=rnd.choice([2, 2, 3]), action=rnd.choice(["bench", "test"]))
         sc["options"] = {"sample_count": rnd.randint(1, 4), "sample_size": rnd.randint(1, 2)}
